@@ -28,7 +28,8 @@ RULE = ("one run = 1-3 PV meters with 1-2 inverters each (optionally one bare in
         "non-trivial = at least one primary failure; distinct = abstract digest of (fault kind, component) sequence")
 QUICK_RUNS = 4000
 THOROUGH_RUNS = 250_000
-EXPECT_PROBES = ["primary_lagging", "transient_primary_error", "grid_formula_variant", "battery_formula_variant", "fallback_started", "fallback_lagging", "primary_recovered", "fallback_before_primary", "primary_closed"]
+EXPECT_PROBES = ["primary_lagging", "transient_primary_error", "grid_formula_variant", "battery_formula_variant", "fallback_started", "fallback_lagging", "primary_recovered", "fallback_before_primary", "primary_closed",
+                 "producer_formula_variant", "grid_reactive_formula_variant", "consumer_formula_variant"]
 
 
 TAIL = 6
@@ -54,9 +55,11 @@ def scenario(sim: Sim, timeline_only: bool = False) -> None:
     from frequenz.sdk.timeseries.formula_engine._formula_generators._pv_power_formula import PVPowerFormula
 
     ch = sim.ch
-    gk = ch.weighted("generator", [5, 3, 2])          # PVPowerFormula / BatteryPowerFormula / GridPowerFormula
+    # PVPowerFormula / BatteryPowerFormula / GridPowerFormula / ProducerPowerFormula / GridReactivePowerFormula
+    # / ConsumerPowerFormula (grid meter minus the PV chains)
+    gk = ch.weighted("generator", [5, 3, 2, 2, 1, 2])
     battery = gk == 1
-    grid = gk == 2
+    grid = gk in (2, 4)
     nterms = 1 + ch.weighted("nterms", [3, 3, 1])
     comps = {Component(1, ComponentCategory.GRID)}
     conns: set[Any] = set()
@@ -125,7 +128,7 @@ def scenario(sim: Sim, timeline_only: bool = False) -> None:
     if not timeline_only and ch.chance("transient_errors", 0.25):
         for _ in range(1 + ch.draw("n_transient", 3)):
             transient.add((terms[ch.draw("transient_term", nterms)]["primary"], ch.draw("transient_round", rounds)))
-    sim.config.update(generator="battery" if battery else ("grid" if grid else "pv"), terms=terms, bare=bare, rounds=rounds, close=close, lag={str(k): x for k, x in lag.items()})
+    sim.config.update(generator=["pv", "battery", "grid", "producer", "grid_reactive", "consumer"][gk], terms=terms, bare=bare, rounds=rounds, close=close, lag={str(k): x for k, x in lag.items()})
     sim.loop.max_iters_no_advance = 4000
     sim.loop.max_steps = 60_000
     fc.draw_stream_offsets(sim, sorted(c.component_id for c in comps))
@@ -145,10 +148,28 @@ def scenario(sim: Sim, timeline_only: bool = False) -> None:
             from frequenz.sdk.timeseries.formula_engine._formula_generators._battery_power_formula import BatteryPowerFormula
 
             gen: Any = BatteryPowerFormula("ns", reg, sub.new_sender(), FormulaGeneratorConfig(component_ids=battery_ids))
+        elif gk == 4:
+            from frequenz.sdk.timeseries.formula_engine._formula_generators._grid_reactive_power_formula import (
+                GridReactivePowerFormula)
+
+            sim.probe("grid_reactive_formula_variant")
+            gen = GridReactivePowerFormula("ns", reg, sub.new_sender(), FormulaGeneratorConfig())
         elif grid:
             from frequenz.sdk.timeseries.formula_engine._formula_generators._grid_power_formula import GridPowerFormula
 
             gen = GridPowerFormula("ns", reg, sub.new_sender(), FormulaGeneratorConfig())
+        elif gk == 5:
+            from frequenz.sdk.timeseries.formula_engine._formula_generators._consumer_power_formula import (
+                ConsumerPowerFormula)
+
+            sim.probe("consumer_formula_variant")
+            gen = ConsumerPowerFormula("ns", reg, sub.new_sender(), FormulaGeneratorConfig())
+        elif gk == 3:
+            from frequenz.sdk.timeseries.formula_engine._formula_generators._producer_power_formula import (
+                ProducerPowerFormula)
+
+            sim.probe("producer_formula_variant")
+            gen = ProducerPowerFormula("ns", reg, sub.new_sender(), FormulaGeneratorConfig())
         else:
             gen = PVPowerFormula("ns", reg, sub.new_sender(), FormulaGeneratorConfig())
         eng = gen.generate()
@@ -239,10 +260,11 @@ def scenario(sim: Sim, timeline_only: bool = False) -> None:
                           f"primary {close} closed; formula engine livelocked (no clock advance, no output); "
                           f"last outputs {out[-3:]}")
         raise
+    minuend = 2 if gk == 5 else None       # consumer power = grid meter (component 2) - everything else
     if timeline_only:
-        _oracle_timeline(sim, terms, bare, rounds, delivered, out)
+        _oracle_timeline(sim, terms, bare, rounds, delivered, out, minuend)
         return
-    _oracle(sim, terms, bare, rounds, delivered, first_index, out, close, transient)
+    _oracle(sim, terms, bare, rounds, delivered, first_index, out, close, transient, minuend)
 
 
 def _faulty_registry(faulty_keys: set[tuple[str, Any]]) -> Any:
@@ -291,7 +313,7 @@ def _valid(x: float | None) -> bool:
 
 def _oracle(sim: Sim, terms: list[dict[str, Any]], bare: bool, rounds: int, delivered: dict[tuple[int, int], float | None],
             first_index: dict[int, int], out: list[tuple[int, float | None, bool]], close: tuple[int, int] | None,
-            transient: set[tuple[int, int]]) -> None:
+            transient: set[tuple[int, int]], minuend: int | None = None) -> None:
     if any(not _valid(delivered.get((t["primary"], k))) for t in terms for k in range(rounds)):
         sim.nontrivial = True
     # per term: T0 (first invalid primary round) and T_f (first index present on all fallback streams)
@@ -365,6 +387,12 @@ def _oracle(sim: Sim, terms: list[dict[str, Any]], bare: bool, rounds: int, deli
         if bare:
             bv = delivered.get((90, k))
             want += bv if _valid(bv) else 0.0  # type: ignore[operator]
+        if minuend is not None:
+            mv = delivered.get((minuend, k))
+            if not _valid(mv):
+                decided = False
+            else:
+                want = mv - want  # type: ignore[operator]
         if not decided:
             continue
         primary_failed = any(not _valid(delivered.get((t["primary"], k))) for t in terms)
@@ -390,7 +418,8 @@ def _oracle(sim: Sim, terms: list[dict[str, Any]], bare: bool, rounds: int, deli
 
 
 def _oracle_timeline(sim: Sim, terms: list[dict[str, Any]], bare: bool, rounds: int,
-                     delivered: dict[tuple[int, int], float | None], out: list[tuple[int, float | None, bool]]) -> None:
+                     delivered: dict[tuple[int, int], float | None], out: list[tuple[int, float | None, bool]],
+                     minuend: int | None = None) -> None:
     """C06's clauses on a generated formula with fallback fetchers (no stream is closed or erroring here):
     emitted timestamps advance by exactly one step, and a non-None value is the formula of the inputs stamped T
     (each term: its primary if valid at T, else the sum of its fallback components at T)."""
@@ -427,6 +456,11 @@ def _oracle_timeline(sim: Sim, terms: list[dict[str, Any]], bare: bool, rounds: 
         if bare:
             bv = delivered.get((90, k))
             want += bv if _valid(bv) else 0.0  # type: ignore[operator]
+        if minuend is not None:
+            mv = delivered.get((minuend, k))
+            if not _valid(mv):
+                continue
+            want = mv - want  # type: ignore[operator]
         if not math.isclose(got, want, rel_tol=1e-9, abs_tol=1e-6):
             sim.soft_violation("single_timestamp", dict(sig, what="value_from_other_timestamp"),
                                f"T={k}: output {got}, but the inputs stamped T={k} give {want}")
